@@ -63,11 +63,20 @@ func (x *Exec) needSeq() {
 	x.d.fun("seq", []string{"(Array Int (_ BitVec 8))", sInt, sInt}, "Bytes")
 	x.d.fun("seqlen", []string{"Bytes"}, sInt)
 	x.d.fun("seqat", []string{"Bytes", sInt}, sBV8)
+}
+
+// needSeqExt adds extensionality of byte sequences (only where equality of
+// contents must imply equality of the abstractions: bytes.Equal).
+func (x *Exec) needSeqExt() {
+	x.needSeq()
+	if x.d.seen["seq-ext"] {
+		return
+	}
+	x.d.seen["seq-ext"] = true
 	x.axioms = append(x.axioms,
 		"(forall ((a (Array Int (_ BitVec 8))) (o Int) (l Int)) (! (=> (>= l 0) (= (seqlen (seq a o l)) l)) :pattern ((seq a o l))))",
 		"(forall ((a (Array Int (_ BitVec 8))) (o Int) (l Int) (i Int)) (! (=> (and (<= 0 i) (< i l)) (= (seqat (seq a o l) i) (select a (+ o i)))) :pattern ((seqat (seq a o l) i))))",
-		"(forall ((s Bytes) (t Bytes)) (! (=> (and (= (seqlen s) (seqlen t)) (forall ((i Int)) (=> (and (<= 0 i) (< i (seqlen s))) (= (seqat s i) (seqat t i))))) (= s t)) :pattern ((seqlen s) (seqlen t))))",
-	)
+		"(forall ((s Bytes) (t Bytes)) (! (=> (and (= (seqlen s) (seqlen t)) (forall ((i Int)) (=> (and (<= 0 i) (< i (seqlen s))) (= (seqat s i) (seqat t i))))) (= s t)) :pattern ((seqlen s) (seqlen t))))")
 }
 
 func (x *Exec) errIs(st *State, e, target string) string {
@@ -106,7 +115,7 @@ func init() {
 	// ---- bytes ---------------------------------------------------------
 	models["bytes.Equal"] = func(x *Exec, st *State, fr *Frame, fn *ssa.Function, args []Value, pos token.Pos) []Outcome {
 		a, b := args[0], args[1]
-		x.needSeq()
+		x.needSeqExt()
 		sa, sb := x.seqOf(st, a), x.seqOf(st, b)
 		r := x.d.fresh("bytesEqual", sBool)
 		// equal iff same length and same contents
